@@ -250,19 +250,29 @@ func (r *relay) processFrame(f http2.Frame) error {
 			err = r.dest.WriteSettingsAck()
 			r.destMu.Unlock()
 		} else {
+			// The values of a SETTINGS frame are processed in order and nothing else happens in between
+			// (RFC 9113, Section 6.5.3): of an identifier that is listed more than once only the last value
+			// takes effect, acting on an earlier one could release data the sender of the frame never allowed.
 			var settings []http2.Setting
+			last := make(map[http2.SettingID]int)
 			if err = f.ForeachSetting(func(s http2.Setting) error {
-				switch s.ID {
-				case http2.SettingHeaderTableSize:
-					r.peer.updateTableSize(s.Val)
-				case http2.SettingInitialWindowSize:
-					r.peer.updateInitialWindowSize(s.Val)
-				case http2.SettingMaxFrameSize:
-					r.peer.updateMaxFrameSize(s.Val)
-				}
+				last[s.ID] = len(settings)
 				settings = append(settings, s)
 				return nil
 			}); err == nil {
+				for i, s := range settings {
+					if last[s.ID] != i {
+						continue
+					}
+					switch s.ID {
+					case http2.SettingHeaderTableSize:
+						r.peer.updateTableSize(s.Val)
+					case http2.SettingInitialWindowSize:
+						r.peer.updateInitialWindowSize(s.Val)
+					case http2.SettingMaxFrameSize:
+						r.peer.updateMaxFrameSize(s.Val)
+					}
+				}
 				r.destMu.Lock()
 				err = r.dest.WriteSettings(settings...)
 				r.destMu.Unlock()
